@@ -1,7 +1,7 @@
 (* C13  Length-prefix framing carries exactly the designated octets.
    Statements only; proofs in Proof/LenpLemmas.v; model Model/Lenp.v. *)
 From Ufw Require Import Base.Bits Base.Errno Model.ByteBuffer Model.Endpoints Model.Varint Model.Lenp
-  Proof.LenpLemmas.
+  Proof.LenpLemmas Proof.RegpFraming.
 Local Open Scope N_scope.
 
 (* the length in the kind's encoding: varint / one octet / 16,32-bit LE,BE; fixed kinds decode back *)
@@ -93,6 +93,15 @@ Theorem C13_decode_var : forall oct calls size n payload r c d s',
   c = n /\ d = payload /\ s_stream s' = r /\ n <= size.
 Proof. exact memory_from_source_var. Qed.
 Print Assumptions C13_decode_var.
+
+(* decoding from a source into a sink (the receive path of the register protocol): unconditional - the call returns, reports
+   the announced length, hands exactly the framed octets to the sink in order and leaves what follows in the source *)
+Theorem C13_decode_to_sink : forall oct payload r calls got kc, N.of_nat (length payload) < 2 ^ 64 ->
+  exists calls' kc',
+    lenp_decode_source_to_sink LVar (plain_src oct (vi_encode (N.of_nat (length payload)) ++ payload ++ r) calls) (plain_snk false got kc)
+    = Some (DOk (N.of_nat (length payload)), plain_src oct r calls', plain_snk false (got ++ payload) kc').
+Proof. exact lenp_d2s_var. Qed.
+Print Assumptions C13_decode_to_sink.
 
 Example C13_example :
   lenp_memory_to_sink LBe16 (snk_plain false) [7; 8; 9] 3 =
